@@ -1795,6 +1795,12 @@ func (c *compiler) VisitCastExpr(e *ast.CastExpr) ast.VisitResult {
 			return ast.VisitRecurse
 		}
 
+		// a cast between a list type and a type definition of that list type does not change the value
+		if lhsTyp == c.toIrType(targetType) {
+			c.latestReturn, c.latestReturnType, c.latestIsTemp = lhs, lhsTyp, isTempLhs
+			return ast.VisitRecurse
+		}
+
 		listType := c.getListType(lhsTyp)
 		list := c.NewAlloca(listType.typ)
 		c.cbb.NewCall(listType.fromConstantsIrFun, list, newInt(1))
